@@ -76,6 +76,8 @@ REQUIRED_THEOREMS = [
     "cell_to_vertex_bridge", "n_F2C_bridge", "id_lists_bridge", "is_cell_tet_bridge", "is_tetrahedral_bridge",
     # round 8: sets as values, loop with early return, guarded *args
     "common_face_bridge", "find_range_eq_findIdx?", "in_cell_index_bridge", "in_cell_face_index_bridge", "is_edge_on_border_bridge",
+    # round 9
+    "cell_to_edge_bridge", "boundary_mesh_spec",
 ]
 
 TRUSTED = [
@@ -1155,7 +1157,7 @@ def _source_map():
         m.setdefault(C + q, "modelled: " + note)
     M = V + "VolumeMesh."
     for q, note in (("__init__", "events of the body in the translated mesh guard table (meshGuards)"),
-                    ("enable_boundary_connectivity", "mesh guard table"), ("boundary_mesh", "mesh guard table; identity with boundary_connectivity.mesh by the oracle"),
+                    ("enable_boundary_connectivity", "mesh guard table"), 
                     ("id_vertices", "List.range nV"), ("id_edges", "List.range nE"), ("id_faces", "List.range nF"), ("id_cells", "List.range nC"),
                     ("is_vertex_on_border", "Conn.isVertexOnBorder (the flags it reads are translated)"),
                     ("is_cell_tet", "Mesh.isTetrahedral"), ("is_tetrahedral", "Mesh.isTetrahedral"),
